@@ -255,7 +255,52 @@ pub fn master(meta: &CheckMeta, tier: &str, seed: u64, extra_env: &[(String, Str
         for e in &engine_errors { println!("ENGINE-ERROR {}", e); }
         return 2;
     }
+    if crate::lang::flavour() == "tsan" {
+        let mut benign = 0u64;
+        for i in 0..nshards {
+            let txt = std::fs::read_to_string(rundir.join(format!("shard{}.err", i))).unwrap_or_default();
+            for block in txt.split("WARNING: ThreadSanitizer").skip(1) {
+                let block: String = block.lines().take(40).collect::<Vec<_>>().join("\n");
+                if tsan_report_is_benign(&block) { benign += 1; continue; }
+                merged.violation("tsan-data-race", format!("ThreadSanitizer{}", block.chars().take(1500).collect::<String>()), json!({"check": meta.id, "kind": "tsan", "report": block}));
+            }
+        }
+        merged.count("tsan_reports_on_ownership_reads_and_asserts", benign);
+    }
     finish(meta, tier, seed, merged, t0)
+}
+
+/// A ThreadSanitizer report is benign iff its non-atomic side is a READ of `ref_count` that sits on a source line which is an
+/// assertion or one of the ownership tests (`ref_count == 1`, `ref_count > 1`): such a read cannot lose an update, and for a
+/// node that another thread can reach the count is >= 2 whatever the interleaving. Any non-atomic WRITE is reported.
+fn tsan_report_is_benign(block: &str) -> bool {
+    let mut lines = block.lines().peekable();
+    let mut all_plain_ok = true;
+    let mut saw_plain = false;
+    while let Some(l) = lines.next() {
+        let t = l.trim();
+        let is_access = (t.starts_with("Read of size") || t.starts_with("Previous read of size") || t.starts_with("Write of size") || t.starts_with("Previous write of size")) && !t.to_lowercase().contains("atomic");
+        if !is_access { continue; }
+        saw_plain = true;
+        if t.to_lowercase().contains("write") { return false; }
+        // first frame: "#0 func /path/file.c:LINE:COL (...)"
+        let Some(frame) = lines.peek().map(|f| f.to_string()) else { return false };
+        // ts_subtree_clone copies the whole node with memcpy, reference count included, and then overwrites the count:
+        // that read of the count word is harmless whatever value it sees
+        if frame.contains("#0 memcpy") {
+            let mut look = lines.clone();
+            look.next();
+            if look.next().map(|f| f.contains("ts_subtree_clone")).unwrap_or(false) && block.contains("Atomic write of size 4") { continue; }
+        }
+        let Some(loc) = frame.split_whitespace().find(|w| w.contains(".c:") || w.contains(".h:")) else { return false };
+        let mut parts = loc.split(':');
+        let (Some(file), Some(line)) = (parts.next(), parts.next().and_then(|x| x.parse::<usize>().ok())) else { return false };
+        let src = std::fs::read_to_string(file.replace("/./", "/")).unwrap_or_default();
+        let text = src.lines().nth(line.saturating_sub(1)).unwrap_or("");
+        let ok = text.contains("ref_count") && (text.contains("ts_assert(") || text.contains("ref_count == 1") || text.contains("ref_count > 1"));
+        if !ok { all_plain_ok = false; }
+    }
+    saw_plain && all_plain_ok
 }
 
 fn is_sanitizer_exit(rundir: &std::path::Path, i: usize) -> bool {
